@@ -11,6 +11,11 @@ from . import env
 
 OUT = os.path.join(env.VERIF, "out")
 EVID = os.path.join(env.VERIF, "evidence")
+if env.REPO != "/repo":
+    # sensitivity experiments against a scratch copy never touch the real
+    # evidence or replay directories
+    OUT = os.path.join(env.VERIF, "out", "scratch-" + os.path.basename(env.REPO))
+    EVID = os.path.join(OUT, "evidence")
 KNOWN = os.path.join(env.VERIF, "known_findings.txt")
 
 TIERS = {
